@@ -113,6 +113,11 @@ func (r *reader) ReadHeader() error {
 		return r.error
 	}
 
+	if r.numTracks == 0 {
+		// the header announces no tracks: there is nothing more to read
+		r.isDone = true
+	}
+
 	for i := 0; i < int(r.numTracks); i++ {
 		r.Tracks = append(r.Tracks, Track{})
 	}
